@@ -4,7 +4,7 @@
    Layout: whitespace, hex digits, the two string passes, numbers, values (arrays / objects), top level. *)
 From Coq Require Import List NArith ZArith Bool Lia.
 Import ListNotations.
-From JB Require Import Constants Bytes Utf8 Num Value Decimal JsonText TextProofs TextRoundtrip JsonGrammar.
+From JB Require Import Constants Bytes Utf8 Num Value Decimal JsonText TextProofs OrderProofs TextRoundtrip JsonGrammar.
 Open Scope N_scope.
 Set Default Timeout 60.
 
@@ -1132,3 +1132,201 @@ Proof. split; [apply grammar_sound|apply grammar_complete]. Qed.
 (* the meaning of a text is unique *)
 Corollary jtext_functional t v1 v2 : jtext t v1 -> jtext t v2 -> v1 = v2.
 Proof. intros H1 H2. apply grammar_complete in H1. apply grammar_complete in H2. congruence. Qed.
+
+(* ================================================================== the UTF-8 side condition of jstring *)
+(* RFC 8259 asks for the TEXT to be UTF-8; jstring asks for the DENOTED string to be UTF-8.  For the bytes between the
+   quotes the two are the same condition: escapes are ASCII in the text and whole valid sequences in the meaning. *)
+Lemma sub_rng lo hi c : 128 <= lo -> hi <= 191 -> cont c = false -> in_rng lo hi c = false.
+Proof.
+  unfold cont, in_rng. intros H1 H2 H. apply andb_false_iff in H. apply andb_false_iff.
+  destruct H as [H|H]; [left|right]; apply N.leb_gt in H; apply N.leb_gt; lia.
+Qed.
+
+(* a byte that is not a continuation byte starts a new character: validity splits there *)
+Lemma utf8_boundary_n c r : cont c = false -> forall n seg, (length seg <= n)%nat ->
+  utf8_valid (seg ++ c :: r) = utf8_valid seg && utf8_valid (c :: r).
+Proof.
+  intros Hc. induction n as [|n IH]; intros seg Hl.
+  - destruct seg; [reflexivity|cbn [length] in Hl; lia].
+  - destruct seg as [|b0 s0]; [reflexivity|]. cbn [length] in Hl.
+    assert (R1 : in_rng 160 191 c = false) by (apply sub_rng; [lia|lia|exact Hc]).
+    assert (R2 : in_rng 128 159 c = false) by (apply sub_rng; [lia|lia|exact Hc]).
+    assert (R3 : in_rng 144 191 c = false) by (apply sub_rng; [lia|lia|exact Hc]).
+    assert (R4 : in_rng 128 143 c = false) by (apply sub_rng; [lia|lia|exact Hc]).
+    change ((b0 :: s0) ++ c :: r) with (b0 :: (s0 ++ c :: r)).
+    cbn [utf8_valid]. destruct (b0 <? 128); [apply IH; lia|].
+    destruct (in_rng 194 223 b0).
+    { destruct s0 as [|b1 s1]; [cbn [app]; rewrite Hc; reflexivity|]. cbn [app length] in *.
+      rewrite IH by lia. rewrite andb_assoc. reflexivity. }
+    destruct (in_rng 224 239 b0).
+    { destruct s0 as [|b1 [|b2 s2]]; cbn [app length] in *.
+      - destruct r; [reflexivity|]. destruct (b0 =? 224); [rewrite R1; reflexivity|]. destruct (b0 =? 237); [rewrite R2; reflexivity|rewrite Hc; reflexivity].
+      - rewrite Hc, andb_false_r. reflexivity.
+      - rewrite IH by lia. rewrite !andb_assoc. reflexivity. }
+    destruct (in_rng 240 244 b0); [|reflexivity].
+    destruct s0 as [|b1 [|b2 [|b3 s3]]]; cbn [app length] in *.
+    + destruct r as [|? [|? ?]]; try reflexivity. destruct (b0 =? 240); [rewrite R3; reflexivity|]. destruct (b0 =? 244); [rewrite R4; reflexivity|rewrite Hc; reflexivity].
+    + destruct r; [reflexivity|]. rewrite Hc, andb_false_r. reflexivity.
+    + rewrite Hc, !andb_false_r. reflexivity.
+    + rewrite IH by lia. rewrite !andb_assoc. reflexivity.
+Qed.
+Lemma utf8_boundary seg c r : cont c = false -> utf8_valid (seg ++ c :: r) = utf8_valid seg && utf8_valid (c :: r).
+Proof. intros Hc. apply (utf8_boundary_n c r Hc (length seg)). lia. Qed.
+
+Lemma ascii_not_cont c : c < 128 -> cont c = false.
+Proof. intros H. unfold cont, in_rng. apply andb_false_iff. left. apply N.leb_gt. lia. Qed.
+Lemma utf8_ascii_prefix e t : Forall (fun c => c < 128) e -> utf8_valid (e ++ t) = utf8_valid t.
+Proof.
+  induction 1 as [|c e Hc _ IH]; [reflexivity|]. cbn [app utf8_valid].
+  replace (c <? 128) with true by (symmetry; apply N.ltb_lt; exact Hc). exact IH.
+Qed.
+
+Ltac Zify.zify_post_hook ::= Z.div_mod_to_equations.
+Ltac dec_bool :=
+  repeat match goal with
+  | |- context [?a <? ?b] => first [replace (a <? b) with true by (symmetry; apply N.ltb_lt; lia) | replace (a <? b) with false by (symmetry; apply N.ltb_ge; lia)]
+  | |- context [?a <=? ?b] => first [replace (a <=? b) with true by (symmetry; apply N.leb_le; lia) | replace (a <=? b) with false by (symmetry; apply N.leb_gt; lia)]
+  | |- context [?a =? ?b] => first [replace (a =? b) with true by (symmetry; apply N.eqb_eq; lia) | replace (a =? b) with false by (symmetry; apply N.eqb_neq; lia)]
+  end.
+
+(* the encoding of a scalar value is one whole valid sequence, and starts with a byte that is not a continuation byte *)
+Lemma utf8_encode_chunk n r : n < 1114112 -> (n < 55296 \/ 57343 < n) ->
+  utf8_valid (utf8_encode n ++ r) = utf8_valid r /\ exists c0 ch, utf8_encode n = c0 :: ch /\ cont c0 = false.
+Proof.
+  intros Hn Hs. unfold utf8_encode.
+  destruct (N.ltb_spec n 128) as [H1|H1].
+  { split; [cbn [app utf8_valid]; dec_bool; reflexivity|]. eexists; eexists; split; [reflexivity|]. unfold cont, in_rng. dec_bool. reflexivity. }
+  destruct (N.ltb_spec n 2048) as [H2|H2].
+  { split; [|eexists; eexists; split; [reflexivity|]; unfold cont, in_rng; dec_bool; reflexivity].
+    cbn [app utf8_valid]. unfold cont, in_rng. dec_bool. reflexivity. }
+  destruct (N.ltb_spec n 65536) as [H3|H3].
+  { split; [|eexists; eexists; split; [reflexivity|]; unfold cont, in_rng; dec_bool; reflexivity].
+    cbn [app utf8_valid]. unfold cont, in_rng.
+    destruct (N.eqb_spec (224 + n / 4096) 224) as [E|E]; [dec_bool; reflexivity|].
+    destruct (N.eqb_spec (224 + n / 4096) 237) as [E2|E2]; dec_bool; reflexivity. }
+  split; [|eexists; eexists; split; [reflexivity|]; unfold cont, in_rng; dec_bool; reflexivity].
+  cbn [app utf8_valid]. unfold cont, in_rng.
+  destruct (N.eqb_spec (240 + n / 262144) 240) as [E|E]; [dec_bool; reflexivity|].
+  destruct (N.eqb_spec (240 + n / 262144) 244) as [E2|E2]; dec_bool; reflexivity.
+Qed.
+Ltac Zify.zify_post_hook ::= idtac.
+
+Lemma hexdigit_bound c x : hexdigit c = Some x -> x < 16 /\ c < 128.
+Proof.
+  unfold hexdigit. intros H.
+  destruct ((48 <=? c) && (c <=? 57)) eqn:E1; [injection H as <-; apply andb_true_iff in E1; destruct E1 as [A B]; apply N.leb_le in A; apply N.leb_le in B; lia|].
+  destruct ((65 <=? c) && (c <=? 70)) eqn:E2; [injection H as <-; apply andb_true_iff in E2; destruct E2 as [A B]; apply N.leb_le in A; apply N.leb_le in B; lia|].
+  destruct ((97 <=? c) && (c <=? 102)) eqn:E3; [injection H as <-; apply andb_true_iff in E3; destruct E3 as [A B]; apply N.leb_le in A; apply N.leb_le in B; lia|].
+  discriminate H.
+Qed.
+Lemma hex4_bound d n : hex4 d = Some n -> n < 65536 /\ Forall (fun c => c < 128) d.
+Proof.
+  intros H. do 4 (destruct d as [|? d]; [discriminate H|]). destruct d; [|discriminate H]. cbn [hex4] in H.
+  destruct (hexdigit n0) eqn:E0; [|discriminate H]. destruct (hexdigit n1) eqn:E1; [|discriminate H].
+  destruct (hexdigit n2) eqn:E2; [|discriminate H]. destruct (hexdigit n3) eqn:E3; [|discriminate H].
+  apply hexdigit_bound in E0, E1, E2, E3. injection H as <-. split; [lia|]. repeat constructor; tauto.
+Qed.
+Lemma uescape_ascii e d n : uescape e d n -> Forall (fun c => c < 128) e /\ Forall (fun c => c < 128) d /\ n < 65536 /\ e <> [].
+Proof.
+  intros [d0 n0 H|d0 n0 H]; destruct (hex4_bound _ _ H) as [Hn Hd]; (split; [|split; [exact Hd|split; [exact Hn|discriminate]]]).
+  - constructor; [lia|]. constructor; [lia|]. exact Hd.
+  - constructor; [lia|]. constructor; [lia|]. constructor; [lia|]. apply Forall_app. split; [exact Hd|]. constructor; [lia|constructor].
+Qed.
+Lemma short_escape_ascii x b : short_escape x = Some b -> x < 128 /\ b < 128.
+Proof.
+  unfold short_escape. intros H.
+  repeat match type of H with (if ?c =? ?k then _ else _) = _ => destruct (N.eqb_spec c k) as [->|?]; [injection H as <-; split; reflexivity|] end.
+  discriminate H.
+Qed.
+Lemma pair_range hi lo : is_high hi = true -> is_low lo = true -> 65536 <= pair_code_point hi lo < 1114112.
+Proof.
+  unfold is_high, is_low, pair_code_point. intros H L. apply andb_true_iff in H. apply andb_true_iff in L.
+  destruct H as [H1 H2]. destruct L as [L1 L2]. apply N.leb_le in H1, H2, L1, L2. lia.
+Qed.
+
+Lemma escape_step E t C s seg : Forall (fun c => c < 128) E -> E <> [] ->
+  (exists c0 C', C = c0 :: C' /\ cont c0 = false) -> (forall r, utf8_valid (C ++ r) = utf8_valid r) ->
+  utf8_valid t = utf8_valid s -> utf8_valid (seg ++ E ++ t) = utf8_valid (seg ++ C ++ s).
+Proof.
+  intros HE Hne (c0 & C' & -> & Hc) HC IH. destruct E as [|e0 E']; [contradiction Hne; reflexivity|].
+  cbn [app]. rewrite (utf8_boundary seg e0), (utf8_boundary seg c0) by (try exact Hc; apply ascii_not_cont; inversion HE; assumption).
+  change (e0 :: E' ++ t) with ((e0 :: E') ++ t). rewrite (utf8_ascii_prefix _ t HE).
+  change (c0 :: C' ++ s) with ((c0 :: C') ++ s). rewrite HC, IH. reflexivity.
+Qed.
+Lemma ascii_chunk C : Forall (fun c => c < 128) C -> C <> [] ->
+  (exists c0 C', C = c0 :: C' /\ cont c0 = false) /\ (forall r, utf8_valid (C ++ r) = utf8_valid r).
+Proof.
+  intros H Hne. split; [|intros r; apply utf8_ascii_prefix; exact H].
+  destruct C as [|c0 C']; [contradiction Hne; reflexivity|]. exists c0, C'. split; [reflexivity|]. apply ascii_not_cont. inversion H; assumption.
+Qed.
+Lemma kept_ascii d : Forall (fun c => c < 128) d -> Forall (fun c => c < 128) (kept_literally d) /\ kept_literally d <> [].
+Proof. intros H. split; [|discriminate]. constructor; [lia|]. constructor; [lia|exact H]. Qed.
+
+(* the bytes between the quotes are UTF-8 exactly when the string they denote is *)
+Lemma body_utf8_seg b s : jstring_body b s -> forall seg, utf8_valid (seg ++ b) = utf8_valid (seg ++ s).
+Proof.
+  induction 1 as [|c t s N34 N92 Hb IH|x b t s Hx Hb IH|e d n t s U NH NL Hb IH|e1 d1 hi e2 d2 lo t s U1 H1 U2 L2 Hb IH
+                  |e d n t s U L Hb IH|e d n t s U H NU Hb IH|e1 d1 hi e2 d2 x t s U1 H1 U2 NL2 Hb IH]; intros seg.
+  - reflexivity.
+  - change (seg ++ c :: t) with (seg ++ [c] ++ t). change (seg ++ c :: s) with (seg ++ [c] ++ s). rewrite !app_assoc. apply IH.
+  - destruct (short_escape_ascii x b Hx) as [Ax Ab].
+    destruct (ascii_chunk [b] ltac:(constructor; [exact Ab|constructor]) ltac:(discriminate)) as [C1 C2].
+    apply (escape_step [92; x] t [b] s seg); [constructor; [lia|constructor; [exact Ax|constructor]]|discriminate|exact C1|exact C2|apply (IH [])].
+  - destruct (uescape_ascii e d n U) as (Ae & Ad & Hn & Ne).
+    assert (NS : n < 55296 \/ 57343 < n).
+    { unfold is_high, is_low in NH, NL. apply andb_false_iff in NH. apply andb_false_iff in NL.
+      destruct NH as [A|A]; destruct NL as [B|B]; try apply N.leb_gt in A; try apply N.leb_gt in B; lia. }
+    apply (escape_step e t (utf8_encode n) s seg); [exact Ae|exact Ne| | |apply (IH [])].
+    + apply (utf8_encode_chunk n [] ltac:(lia) NS).
+    + intros r. apply (utf8_encode_chunk n r ltac:(lia) NS).
+  - destruct (uescape_ascii e1 d1 hi U1) as (Ae1 & _ & _ & Ne1). destruct (uescape_ascii e2 d2 lo U2) as (Ae2 & _ & _ & _).
+    pose proof (pair_range hi lo H1 L2) as PR. rewrite (app_assoc e1 e2 t).
+    apply (escape_step (e1 ++ e2) t (utf8_encode (pair_code_point hi lo)) s seg);
+      [apply Forall_app; split; assumption|destruct e1; [contradiction Ne1; reflexivity|discriminate]| | |apply (IH [])].
+    + apply (utf8_encode_chunk (pair_code_point hi lo) [] ltac:(lia) ltac:(lia)).
+    + intros r. apply (utf8_encode_chunk (pair_code_point hi lo) r ltac:(lia) ltac:(lia)).
+  - destruct (uescape_ascii e d n U) as (Ae & Ad & Hn & Ne). destruct (kept_ascii d Ad) as [K1 K2]. destruct (ascii_chunk _ K1 K2) as [C1 C2].
+    apply (escape_step e t (kept_literally d) s seg); [exact Ae|exact Ne|exact C1|exact C2|apply (IH [])].
+  - destruct (uescape_ascii e d n U) as (Ae & Ad & Hn & Ne). destruct (kept_ascii d Ad) as [K1 K2]. destruct (ascii_chunk _ K1 K2) as [C1 C2].
+    apply (escape_step e t (kept_literally d) s seg); [exact Ae|exact Ne|exact C1|exact C2|apply (IH [])].
+  - destruct (uescape_ascii e1 d1 hi U1) as (Ae1 & Ad1 & _ & Ne1). destruct (uescape_ascii e2 d2 x U2) as (Ae2 & Ad2 & _ & _).
+    destruct (kept_ascii d1 Ad1) as [K1 K2]. destruct (kept_ascii d2 Ad2) as [K3 K4].
+    assert (KA : Forall (fun c => c < 128) (kept_literally d1 ++ kept_literally d2)) by (apply Forall_app; split; assumption).
+    destruct (ascii_chunk _ KA ltac:(discriminate)) as [C1 C2].
+    rewrite (app_assoc e1 e2 t), (app_assoc (kept_literally d1) (kept_literally d2) s).
+    apply (escape_step (e1 ++ e2) t _ s seg);
+      [apply Forall_app; split; assumption|destruct e1; [contradiction Ne1; reflexivity|discriminate]|exact C1|exact C2|apply (IH [])].
+Qed.
+Theorem body_utf8 b s : jstring_body b s -> utf8_valid b = utf8_valid s.
+Proof. intros H. apply (body_utf8_seg b s H []). Qed.
+
+(* hence a string literal may equally be required to be UTF-8 in the text, as RFC 8259 does *)
+Corollary jstring_utf8_in_text b s : jstring_body b s -> (utf8_valid b = true <-> utf8_valid s = true).
+Proof. intros H. rewrite (body_utf8 b s H). tauto. Qed.
+
+
+(* ================================================================== what "inserted in order into a map" means: the last duplicate wins *)
+Lemma bytes_eqb_eq a b : bytes_eqb a b = true <-> a = b.
+Proof. unfold bytes_eqb. rewrite <- bytes_cmp_eq. destruct (bytes_cmp a b); split; congruence. Qed.
+
+Lemma lookup_insert k k' (v : value) l :
+  assoc_lookup k (assoc_insert k' v l) = if bytes_eqb k k' then Some v else assoc_lookup k l.
+Proof.
+  induction l as [|[k'' v''] r IH]; cbn [assoc_insert assoc_lookup]; [reflexivity|].
+  destruct (bytes_cmp k' k'') eqn:C; cbn [assoc_lookup].
+  - apply bytes_cmp_eq in C. subst k''. destruct (bytes_eqb k k'); reflexivity.
+  - reflexivity.
+  - rewrite IH. destruct (bytes_eqb k k'') eqn:E1; [|reflexivity]. destruct (bytes_eqb k k') eqn:E2; [|reflexivity].
+    apply bytes_eqb_eq in E1. apply bytes_eqb_eq in E2. subst. rewrite bytes_refl in C. discriminate C.
+Qed.
+
+Theorem object_last_duplicate_wins ms k : assoc_lookup k (assoc_of_list ms) = last_binding k ms.
+Proof.
+  unfold assoc_of_list, last_binding.
+  assert (G : forall acc r, assoc_lookup k acc = r ->
+            assoc_lookup k (fold_left (fun acc kv => assoc_insert (fst kv) (snd kv) acc) ms acc)
+            = fold_left (fun r kv => if bytes_eqb k (fst kv) then Some (snd kv) else r) ms r).
+  { induction ms as [|[k1 v1] ms IH]; intros acc r H; cbn [fold_left fst snd]; [exact H|].
+    apply IH. rewrite lookup_insert, H. reflexivity. }
+  apply G. reflexivity.
+Qed.
